@@ -19,7 +19,8 @@ RULE = ('Markov-structured micro trajectories (2..7 microstates quick, ..8 thoro
         'sum to one (1e-10), aggregated equilibrium stationary (1e-8), non-negativity for positive=True. '
         'Non-trivial: >= 3 microstates and a non-identity lumping.'
         ' Added classes: bad lumpings of driven ring walks (raw projection with negative and > 1 entries in one row), irreducible periodic micro chains (must be refused), the same lumped object estimated at other lag times first, arrays handed out by the object overwritten before the estimate.'
-        ' Later: a state that appears two frames before the end (ergodic at one lag, refused at another; both asked on one object), narrow micro types with macro labels outside them, snippets of lag+1 frames.')
+        ' Later: a state that appears two frames before the end (ergodic at one lag, refused at another; both asked on one object), narrow micro types with macro labels outside them, snippets of lag+1 frames.'
+        ' Thorough only: two trajectories of 2.0-2.3 million frames in which one microstate (a macrostate of its own) is seen in one frame: equilibrium population below 1e-6, model still clearly ergodic.')
 TRUSTED = ['LAPACK inv / eig inside the implementation (compared within 1e-8)',
            'the run-time certificates (K*Z = Z*K = I, N*M = M*N = I) are kept, but are now redundant: existence of both '
            'inverses and of the stationary vector on ergodic input is proved (hs_total_on_ergodic_input)']
@@ -180,7 +181,40 @@ def gen_snippets(rng, tier):
                'style': 'snippets', 'alpha': akind}
 
 
+def gen_tiny_pop(rng, tier):
+    # thorough only: millions of frames in which one microstate - a macrostate of its own - is seen in a
+    # single frame, so that its equilibrium population is below 1e-6 while the model is still clearly
+    # ergodic (entries of the Wielandt power ~1e-7 and above); the projected matrix A^T D M' A then has a
+    # singular value of that size, and anything but a true inverse of it changes the answer
+    if tier == 'quick':
+        return
+    for _ in range(2):
+        k = rng.randint(3, 4)
+        labs, akind = G.alphabet(rng, k=k + 1)
+        rng.shuffle(labs)
+        rare, labs = labs[0], labs[1:]
+        w = [rng.randint(2, 6) for _ in labs]
+        n = rng.randint(2000000, 2300000)
+        t, cur = [], labs[0]
+        rnd, choices = rng.random, rng.choices
+        draws = choices(labs, weights=w, k=n)
+        for i in range(n):
+            if rnd() < 0.3:
+                cur = draws[i]
+            t.append(cur)
+        t[rng.randint(n // 4, 3 * n // 4)] = rare
+        nm = rng.randint(2, len(labs) - 1) if len(labs) > 2 else 2
+        mlabs, _ = G.alphabet(rng, k=nm + 1)
+        rng.shuffle(mlabs)
+        f = lump(rng, labs, nm, mlabs[1:])
+        f[rare] = mlabs[0]
+        yield {'macro': [[f[v] for v in t]], 'micro': [t], 'pos': rng.random() < 0.5, 'lag': 1,
+               'style': 'tiny-population', 'alpha': akind}
+
+
 def gen(rng, tier):
+    for case in gen_tiny_pop(rng, tier):
+        yield case
     for case in gen_snippets(rng, tier):
         yield case
     for case in gen_narrow(rng, tier):
